@@ -107,7 +107,9 @@ class Memory(Backend):
 
     async def scan(self, pattern: str, batch_size: int = 100) -> AsyncIterator[Key]:  # type: ignore
         regexp = re.compile(".*".join(re.escape(part) for part in pattern.split("*")), re.DOTALL)
-        for key in dict(self.store):
+        for key, (expire_at, _) in dict(self.store).items():
+            if expire_at and expire_at <= time.time():
+                continue
             if regexp.fullmatch(key):
                 yield key
 
